@@ -1,16 +1,33 @@
 use tiny_skia::*;
+use verif_harness::{c02, f};
 fn main() {
-    let mut src = Pixmap::new(8, 8).unwrap();
-    src.fill(Color::from_rgba8(255, 255, 255, 255));
-    for op in [1.0f32, 0.5, 0.2] {
-        let mut pm = Pixmap::new(8, 8).unwrap();
-        let mut paint = Paint::default();
-        paint.shader = Pattern::new(src.as_ref(), SpreadMode::Pad, FilterQuality::Nearest, op, Transform::identity());
-        paint.anti_alias = true;
-        let mut pb = PathBuilder::new();
-        pb.move_to(1.5, 1.5); pb.line_to(6.5, 1.5); pb.line_to(6.5, 6.5); pb.line_to(1.5, 6.5); pb.close();
-        let p = pb.finish().unwrap();
-        pm.fill_path(&p, &paint, FillRule::Winding, Transform::identity(), None);
-        println!("opacity {} -> edge {:?} inside {:?}", op, pm.pixel(1, 3).unwrap(), pm.pixel(3, 3).unwrap());
-    }
+    let l: Vec<i128> = std::env::args().skip(1).map(|a| a.parse().unwrap()).collect();
+    let cap = match l[0] { 0 => LineCap::Butt, 1 => LineCap::Round, _ => LineCap::Square };
+    let aa = l[1] != 0;
+    let width = l[2] as f32 / 1000.0;
+    let (w, h) = (l[3] as u32, l[4] as u32);
+    let t = Transform::from_row(f(l[6]), f(l[8]), f(l[7]), f(l[9]), f(l[10]), f(l[11]));
+    let path = c02::build_path(&l[12..]).unwrap();
+    let mut paint = Paint::default(); paint.set_color_rgba8(255,255,255,255); paint.anti_alias = aa;
+    let stroke = Stroke { width, line_cap: cap, ..Stroke::default() };
+    let mut a = Pixmap::new(w, h).unwrap();
+    a.stroke_path(&path, &paint, &stroke, t, None);
+    let mut b = Pixmap::new(3 * w, 3 * h).unwrap();
+    b.stroke_path(&path, &paint, &stroke, t.post_translate(w as f32, h as f32), None);
+    let tp = path.clone().transform(t).unwrap();
+    println!("{:?}", tp);
+    for y in 0..h { for x in 0..w {
+        let (pa, pb) = (a.pixel(x, y).unwrap().alpha() as i32, b.pixel(x + w, y + h).unwrap().alpha() as i32);
+        if (pa - pb).abs() >= 64 && x > 2 && y > 2 && x + 3 < w && y + 3 < h {
+            println!("pixel ({},{}) small {} big {}", x, y, pa, pb);
+            for yy in y.saturating_sub(3)..(y + 4).min(h) {
+                let mut s = String::new(); let mut s2 = String::new();
+                for xx in x.saturating_sub(4)..(x + 5).min(w) {
+                    s += &format!("{:3} ", a.pixel(xx, yy).unwrap().alpha());
+                    s2 += &format!("{:3} ", b.pixel(xx + w, yy + h).unwrap().alpha());
+                }
+                println!("{}   | {}", s, s2);
+            }
+        }
+    }}
 }
